@@ -364,11 +364,11 @@ class _EvaluableMod:
 
 # --- nutils_poly (external): shapes of eval_outer / MulPlan / GradPlan results
 
-def poly_eval_outer(ctx, points, coeffs):
-    ctx.used_axioms.add('nutils_poly.eval_outer(points, coeffs): shape points.shape[:-1] + coeffs.shape[:-1], float')
-    if not (isinstance(points, NArr) and isinstance(coeffs, NArr) and points.ndim >= 1 and coeffs.ndim >= 1):
+def poly_eval_outer(ctx, coeffs, values):
+    ctx.used_axioms.add('nutils_poly.eval_outer(coeffs, values): shape values.shape[:-1] + coeffs.shape[:-1], float')
+    if not (isinstance(values, NArr) and isinstance(coeffs, NArr) and values.ndim >= 1 and coeffs.ndim >= 1):
         raise PyRaise('ValueError', note='eval_outer operands')
-    return NArr(points.shape[:-1] + coeffs.shape[:-1], FLOAT)
+    return NArr(values.shape[:-1] + coeffs.shape[:-1], FLOAT)
 
 
 def _plan(what, f):
@@ -540,6 +540,7 @@ class Env:
         g['_LoopIndex'] = ClassRef('_LoopIndex', construct=self.c_loopindex)
         g['util'] = _Mod({'untake': untake}, 'util')
         g['isunit'] = self.isunit
+        g['repr'] = lambda ctx, x: repr(x) if isinstance(x, (_MulVar, int, str)) else _unsupported('repr of %r' % (x,))
         g['chr'] = lambda ctx, i: chr(i) if isinstance(i, int) else _unsupported('chr of %r' % (i,))
         return g
 
@@ -848,6 +849,123 @@ class EinsumRejected(Einsum):
     rejected = True
 
 
+class Inflate(Meta):
+    cls = 'Inflate'
+
+    def fields(self, cx):
+        r, d = self.cfg['rank'], self.cfg['drank']
+        func = fresh_arr(cx, 'func', r)
+        # the dofmap has the shape of the trailing axes of func (the constructor rejects only certainly different lengths)
+        dofmap = Arr('dofmap', [fresh_len(cx, 'dofmap.shape%d' % i) for i in range(d)], z3.IntVal(INT), extra=dict(isconstant=SBool(cx.bool('dofmap.isconstant'))))
+        if d <= r:
+            for a, b in zip(func.attrs['shape'][r - d:], dofmap.attrs['shape']):
+                cx.assume(a.val == b.val, axiom='Inflate: dofmap.shape == func.shape[func.ndim-dofmap.ndim:] (the constructor rejects only certainly different lengths; numpy.add.at raises otherwise)')
+        return dict(func=func, dofmap=dofmap, length=fresh_len(cx, 'length'))
+
+
+class InflateRejected(Inflate):
+    rejected = True
+
+
+class Diagonalize(Unary):
+    cls = 'Diagonalize'
+
+
+class Polyval(Meta):
+    cls = 'Polyval'
+
+    def fields(self, cx):
+        p = self.cfg['prank']
+        pts = Arr('points', [fresh_len(cx, 'points.shape%d' % i) for i in range(p - 1)] + [Len(z3.IntVal(self.cfg['nvars']), 'nvars')], z3.IntVal(FLOAT))
+        return dict(coeffs=fresh_arr(cx, 'coeffs', self.cfg['crank'], (FLOAT,)), points=pts)
+
+
+class PolyGrad(Meta):
+    cls = 'PolyGrad'
+
+    def fields(self, cx):
+        return dict(coeffs=fresh_arr(cx, 'coeffs', self.cfg['rank'], (FLOAT,)), nvars=self.cfg['nvars'])
+
+
+class PolyMul(Meta):
+    cls = 'PolyMul'
+
+    def fields(self, cx):
+        r = self.cfg['rank']
+        lead = [fresh_len(cx, 'lead%d' % i) for i in range(r - 1)]
+        # equal leading shapes (the constructor rejects only certainly different ones; the plan broadcasts otherwise)
+        left = Arr('coeffs_left', lead + [fresh_len(cx, 'ncoeffs_left')], z3.IntVal(FLOAT))
+        right = Arr('coeffs_right', [Len(l.val, 'lead') for l in lead] + [fresh_len(cx, 'ncoeffs_right')], z3.IntVal(FLOAT))
+        cx.used_axioms.add('PolyMul: coeffs_left.shape[:-1] == coeffs_right.shape[:-1] (the constructor rejects only certainly different lengths)')
+        return dict(coeffs_left=left, coeffs_right=right, vars=tuple(MULVAR[v] for v in self.cfg['vars']))
+
+
+class Legendre(Meta):
+    cls = 'Legendre'
+
+    def fields(self, cx):
+        return dict(x=fresh_arr(cx, 'x', self.cfg['rank'], (FLOAT,)), degree=self.cfg['degree'])
+
+
+class Choose(Meta):
+    cls = 'Choose'
+
+    def fields(self, cx):
+        r = self.cfg['rank']
+        index = fresh_arr(cx, 'index', r, (INT,))
+        choices = Arr('choices', [Len(l.val, 'lead') for l in index.attrs['shape']] + [fresh_len(cx, 'nchoices')], fresh_kind(cx, 'choices'))
+        cx.used_axioms.add('Choose: choices.shape[:-1] == index.shape (the constructor rejects only certainly different lengths; numpy.choose broadcasts otherwise)')
+        return dict(index=index, choices=choices)
+
+
+class SearchSorted(Meta):
+    cls = 'SearchSorted'
+
+    def fields(self, cx):
+        array = fresh_arr(cx, 'array', 1)
+        sorter = None
+        if self.cfg['sorter']:
+            sorter = Arr('sorter', [Len(array.attrs['shape'][0].val, 'n')], z3.IntVal(INT))
+            cx.used_axioms.add('SearchSorted: sorter.shape == array.shape (the constructor rejects only certainly different lengths; numpy raises otherwise)')
+        return dict(arg=fresh_arr(cx, 'arg', self.cfg['rank']), array=array, sorter=sorter, side=self.cfg['side'])
+
+
+class ArgSort(Unary):
+    cls = 'ArgSort'
+    field = 'array'
+
+
+class UniqueMask(Unary):
+    cls = 'UniqueMask'
+    field = 'sorted_array'
+
+
+class UniqueInverse(Meta):
+    cls = 'UniqueInverse'
+
+    def fields(self, cx):
+        mask = fresh_arr(cx, 'unique_mask', 1, (BOOL,))
+        sorter = Arr('sorter', [Len(mask.attrs['shape'][0].val, 'n')], z3.IntVal(INT))
+        cx.used_axioms.add('UniqueInverse: unique_mask.shape == sorter.shape (the constructor rejects only certainly different lengths)')
+        return dict(unique_mask=mask, sorter=sorter)
+
+
+class Find(Meta):
+    cls = 'Find'
+
+    def fields(self, cx):
+        return dict(where=fresh_arr(cx, 'where', self.cfg.get('rank', 1), (BOOL,)))
+
+
+class SizesToOffsets(Meta):
+    cls = '_SizesToOffsets'
+
+    def fields(self, cx):
+        sizes = fresh_arr(cx, 'sizes', 1, (INT,))
+        sizes.attrs['_intbounds'] = (0, float('inf'))
+        return dict(sizes=sizes)
+
+
 def _ranks(cls, ranks, **kw):
     return [cls(rank=r, **kw) for r in ranks]
 
@@ -870,6 +988,15 @@ def meta_contracts():
     cs += [Einsum(args=a, out=o) for a, o in (
         (((0, 1), (1,)), (0,)), (((0, 1), (1, 2)), (0, 2)), (((0,), (0,)), (0,)), (((0, 1),), (1, 0)), (((0, 1, 2), (2, 1)), (0,)),
         (((0,), (1,), (2,)), (2, 0, 1)), (((0, 0),), (0,)), (((0, 1), (0, 1)), ()))]
+    cs += [Inflate(rank=r, drank=d) for r, d in ((1, 0), (1, 1), (2, 1), (2, 2), (3, 1), (3, 2), (0, 0))]
+    cs += _ranks(Diagonalize, (1, 2))
+    cs += [Polyval(prank=a, crank=b, nvars=n) for a, b, n in ((1, 1, 1), (2, 1, 2), (1, 2, 0), (2, 2, 3), (3, 1, 2))]
+    cs += [PolyGrad(rank=r, nvars=n) for r, n in ((1, 1), (1, 2), (2, 2), (2, 3), (2, 0))]
+    cs += [PolyMul(rank=r, vars=v) for r, v in ((1, ('Left', 'Right')), (2, ('Both',)), (2, ('Left', 'Both', 'Right')), (1, ()))]
+    cs += [Legendre(rank=r, degree=d) for r, d in ((0, 0), (1, 0), (1, 1), (1, 3), (2, 2))]
+    cs += _ranks(Choose, (0, 1, 2))
+    cs += [SearchSorted(rank=r, sorter=so, side=si) for r, so, si in ((0, False, 'left'), (1, False, 'right'), (2, True, 'left'), (1, True, 'right'))]
+    cs += _ranks(ArgSort, (1, 2)) + [UniqueMask(rank=1), UniqueInverse(), Find(), SizesToOffsets()]
     return cs
 
 
